@@ -52,9 +52,14 @@ def history_configs(tier):
                 for s in rest:
                     yield pre + [s]
     for d in range(1, depth + 1):
+        pool = [(c, l) for c in CHANGES[1:] for l in ([],)]
         if tier == "quick" and d == 3:
-            pool = [(c, l) for c in CHANGES[1:] for l in ([],)]
             gen = ([a, b2, c3] for a in first[::2] for b2 in pool for c3 in [(None, ["t", "u", "w"])])
+        elif d == 4:
+            # depth 4 is thinned (the full product has 7.3 million histories): every first step, two changes each
+            # followed by a full refresh, then a load of everything
+            gen = ([a, b2, b3, c4] for a in first[::2] for b2 in pool for b3 in pool
+                   for c4 in [(None, ["t", "u", "w"])])
         else:
             gen = scripts(d)
         for hist in gen:
@@ -118,7 +123,7 @@ def consumer_configs(tier):
     return out
 
 
-RULE = ("histories: every sequence of <=3 (quick, thinned at depth 3) / <=4 (thorough) steps, each a cluster change "
+RULE = ("histories: every sequence of <=3 (quick, thinned at depth 3) / <=4 (thorough, thinned at depth 4) steps, each a cluster change "
         "from {leader moves, partition loses its leader, topic error 5 / cleared, partition removed / added, topic "
         "removed / new topic, broker removed / re-addressed (new host and port, or a new port on the same host) / added, no change} followed by a metadata load of {t}, "
         "{u}, {t,u,w} or all topics, on a warmed-up 3-broker client; after every answer the public view of covered "
